@@ -96,6 +96,7 @@ type Exec struct {
 	ghostCells   map[string]*Cell
 	ghostDone    map[*GhostSet]bool
 	appliesDone  map[*ApplySpec]bool
+	callRes      map[string]Val // callres_<Callee>_<ordinal>: the value returned by that call (readable in later clauses)
 	arrayCells   map[*Cell]int
 	arrayElem    map[*Cell]MT
 }
@@ -490,7 +491,7 @@ func newExec(w *World, fn *ssa.Function, c *Contract, split *int) *Exec {
 		loops: map[*ssa.BasicBlock]*loopInfo{}, backEdge: map[[2]*ssa.BasicBlock]bool{},
 		kindCount: map[string]int{}, callCount: map[string]int{}, srcLines: map[string][]string{},
 		usedWaivers: map[*Waiver]bool{}, splitVal: split,
-		arrayCells: map[*Cell]int{}, arrayElem: map[*Cell]MT{}, cutsDone: map[*CutSpec]bool{}, assertsDone: map[*AssertSpec]bool{}, callArgsDone: map[*CallArgSpec]bool{}, ghostCells: map[string]*Cell{}, ghostDone: map[*GhostSet]bool{}, appliesDone: map[*ApplySpec]bool{}}
+		arrayCells: map[*Cell]int{}, arrayElem: map[*Cell]MT{}, cutsDone: map[*CutSpec]bool{}, assertsDone: map[*AssertSpec]bool{}, callArgsDone: map[*CallArgSpec]bool{}, ghostCells: map[string]*Cell{}, ghostDone: map[*GhostSet]bool{}, appliesDone: map[*ApplySpec]bool{}, callRes: map[string]Val{}}
 	x.vc = newVC(x.name, mode)
 	if split != nil {
 		x.suffix = fmt.Sprintf("/%s=%d", c.Split.Var, *split)
@@ -762,6 +763,9 @@ func (x *Exec) envAt(pos token.Pos) *Env {
 		}
 		if name == "DefaultRoundingMode" {
 			return x.globalInput(name), true
+		}
+		if v, ok := x.callRes[name]; ok {
+			return v, true
 		}
 		return nil, false
 	}
